@@ -150,6 +150,10 @@ theorem dwvw_read_split (c : Cfg) (d : DSt) (a b : Nat) (h : (decodeData c a d).
   unfold decodeData at h ⊢
   rw [decLoop_add c a b d, if_pos h]
 
+/-- not vacuous: in the two-byte file the first five samples are delivered, and 5 + 1 is the read of six -/
+example : (decodeData ⟨24⟩ 5 (DSt.init [255, 255])).2.length = 5 ∧
+    (decodeData ⟨24⟩ (5 + 1) (DSt.init [255, 255])).2 = [0, 0, 0, 0, 0, 0] := by decide +kernel
+
 theorem dwvw_read_split_full_holds : readSplitFull decodeData := fun c d a b _ h => dwvw_read_split c d a b h
 
 /-- six zero samples in a 24-bit file are the two bytes FF FF -/
